@@ -199,7 +199,7 @@ def callers_of(crate, *suffixes):
     return out
 
 
-def loop_invariant_store(crate, fn, head, **evkw):
+def loop_invariant_store(crate, fn, head, init_store=None, **evkw):
     """Values, at the first arrival at loop head `head`, of the locals of `fn` that are assigned nowhere at or after the head
     (i.e. computations hoisted out of the loop).  Returned as an `init_store` for an evaluation that starts at the head, so that
     `let x = f(arg); loop { use(x) }` is seen the same way as `loop { use(f(arg)) }`.  Only values that are identical on every
@@ -221,10 +221,10 @@ def loop_invariant_store(crate, fn, head, **evkw):
         if "call" in t and t.get("dest") is not None:
             assigned.add(t["dest"]["l"])
     ev = _paths.Evaluator(crate, stop_blocks=[head], **evkw)
-    rows = [x for x in ev.run(fn) if x.outcome[0] == "stop" and x.outcome[1] == head]
+    rows = [x for x in ev.run(fn, init_store=dict(init_store) if init_store else None) if x.outcome[0] == "stop" and x.outcome[1] == head]
     if not rows:
-        return {}
-    out = {}
+        return dict(init_store or {})
+    out = dict(init_store or {})
     for k, v in rows[0].store.items():
         if not (isinstance(k, tuple) and k and k[0] == "local" and k[1] == 0):
             continue
